@@ -562,9 +562,17 @@ def clean_decision_table(ctx: Ctx, rule: str, all_owners: bool = False) -> None:
             # only the swarm filter may skip a worker
             skip_req = norm.conj([("not", ("atom", "worker.swarm_id == 'localhost'")),
                                   ("not", ("atom", "worker.swarm_id in _PW.id"))])
+            skip_alt = ("not", ("atom", "worker.swarm_id == _PW.swarm_id"))
             n_skip += 1
-            if not norm.implies(prem, skip_req):
+            if not (norm.implies(prem, skip_req) or norm.implies(prem, skip_alt)):
                 problems.append(("an involved worker is skipped for a reason other than belonging to another swarm", v))
+            elif all_owners:
+                # C05: a dependant on another swarm counts whenever setup is reused across swarms (pool scope with 'cluster')
+                per_swarm = ("not", ("atom", "'cluster' in self.params['pool_scope']"))
+                cross_ok = norm.implies(prem, per_swarm)
+                ctx.record(rule + "s", "GUARD", fref, "an involved worker of another swarm is skipped only when setup is not reused across swarms", cross_ok, {},
+                           "" if cross_ok else "workers of other swarms are never waited for, although with the default pool scope (cluster included) their tests reuse the same removable state: "
+                           "it can be removed while a dependant in another cluster is running")
         elif v.path.exit == "return":
             val = v.path.exit_node.value
             if not (isinstance(val, ast.Constant) and val.value is False):
